@@ -272,6 +272,12 @@ def run_unit(name, tier="quick", config="A", opts=None, keep=None):
                 failed.append(fo)
             elif cls == "undecided":
                 undec.append(msg)
+                # a resource limit hit inside a repo function (its proof got harder after a source change): no verdict,
+                # but the function is a suspect for the directed search
+                fnr = _fn_at(pl, asm.fn_ranges)
+                if fnr:
+                    rejected_in.append(failed_obligation(fnr[2], "other", "no verdict for this function: " + msg[:160],
+                                                         location="%s:%d" % (fnr[3], fnr[4])))
             else:
                 undec.append("verus rejected the assembled unit: %s (%s)" % (msg[:300], _origin(pl, linemap)))
                 # rejected inside a repo function (its shape changed under the contract overlay): remember the
